@@ -14,4 +14,15 @@ func init() {
 			"encoding/json, bytes.Buffer, sort.SliceStable, cmp.Equal are outside /repo: assumed contracts listed in trusted_base; the JSON text produced/accepted is not specified",
 		},
 	}
+	propSpecs["C18"] = &PropSpec{
+		ID:       "C18",
+		Patterns: []string{"./internal/ast", "./internal/orderedmap", "./internal/tools"},
+		Level:    "proof",
+		Assumptions: []string{
+			"values behind `any` (Default, Value, Constant, Args, hint values, ReferenceValue) are treated as immutable atoms: a copy may share them; no cog code writes through them",
+			"the copy relation of every type is generated from its go/types declaration; nil and empty slices/maps are identified",
+			"faithfulness and independence for values of any depth follow from the per-method obligations by the modular rule (structural induction over the finite IR tree)",
+			"relations established by a callee stay valid because the caller may only write memory it allocated itself (own-memory frame obligations); IR values are finite trees",
+		},
+	}
 }
